@@ -19,6 +19,7 @@ import (
 	"net/http"
 	"net/http/httptest"
 	"os"
+	"runtime"
 	"sort"
 	"strconv"
 	"strings"
@@ -787,6 +788,9 @@ func (e *vfE7VEnv) run(w vfE7VWorld, r vfE7VReq) {
 	req := httptest.NewRequest("GET", path, nil)
 	rec := httptest.NewRecorder()
 	e.hs.ServeHTTP(rec, req)
+	// A fetch goroutine that panics runs its deferred wg.Done() first: the handler may well answer before the
+	// process dies. Wait until no goroutine is left inside clusterinfo (a panicking one kills the process here).
+	vfE7WaitFetchers()
 	impl := e.cl.render(r.kind, rec.Code, rec.Body.Bytes())
 	fmt.Fprintln(e.out.impl, impl)
 	e.out.impl.Flush()
@@ -799,6 +803,18 @@ func (e *vfE7VEnv) close() {
 	e.n.httpListener.Close()
 	for _, s := range e.cl.srv {
 		s.Close()
+	}
+}
+
+var vfE7StackBuf = make([]byte, 1<<20)
+
+func vfE7WaitFetchers() {
+	buf := vfE7StackBuf
+	for i := 0; i < 5000; i++ {
+		if !strings.Contains(string(buf[:runtime.Stack(buf, true)]), "internal/clusterinfo.") {
+			return
+		}
+		time.Sleep(time.Millisecond)
 	}
 }
 
